@@ -36,6 +36,7 @@ theorem next_eq (s : WeightedMovingAverage F) (x v : F) (h : WF s) (hv : s.deque
   rw [Array.getElem?_eq_getElem hix] at hv
   have hv := Option.some.inj hv
   unfold next
+  try simp only [gen_helper]
   rs_exec
   all_goals (first | omega | (subst hv; rfl))
 
@@ -49,6 +50,7 @@ theorem next_total (s : WeightedMovingAverage F) (x : F) (h : WF s) :
 
 theorem nextBar_eq (s : WeightedMovingAverage F) (b : Bar F) : s.nextBar b = s.next b.close := by
   unfold nextBar
+  try simp only [gen_helper]
   cases h : s.next b.close <;> simp [h]
 
 end TaRs.Gen.WeightedMovingAverage
